@@ -74,6 +74,8 @@ CONSTANTS
   TreeSel = "{sel}"
   Part = {part}
   NParts = {nparts}
+  Sub = {sub}
+  NSub = {nsub}
   MaxOps = {maxops}
   MaxHeap = 6
   MaxNss = 2
@@ -95,7 +97,7 @@ CHECK_DEADLOCK FALSE
 
 
 def run_mc(rep: Report, sel: str, maxops: int, nparts: int, dump: bool, coverage,
-           timeout: float, label: str):
+           timeout: float, label: str, nsub: int = 1):
     """Run MC_RenderArgs on `nparts` partitions of the tree set side by side (an edge dump
     needs one worker per JVM).  coverage: True = every partition runs with -coverage;
     "sample" = the partitions run without it and one extra JVM runs -coverage on TreesCover
@@ -104,15 +106,16 @@ def run_mc(rep: Report, sel: str, maxops: int, nparts: int, dump: bool, coverage
     d.mkdir(parents=True, exist_ok=True)
     jvm = ["-Xmx3g", "-Xss64m", "-XX:ParallelGCThreads=2"]
     jobs = []
-    for p in range(nparts):
+    for p in range(nparts * nsub):
         f = d / f"MC_{sel}_{p}.cfg"
-        f.write_text(CFG.format(sel=sel, part=p, nparts=nparts, maxops=maxops,
-                                dump="TRUE" if dump else "FALSE"))
+        f.write_text(CFG.format(sel=sel, part=p // nsub, nparts=nparts, sub=p % nsub, nsub=nsub,
+                                maxops=maxops, dump="TRUE" if dump else "FALSE"))
         jobs.append(dict(spec="MC_RenderArgs", cfg=str(f), workers=1 if dump else 2, jvm=jvm,
                          timeout=timeout, coverage=coverage is True, deadlock=False))
     if coverage == "sample":
         f = d / "MC_cover.cfg"
-        f.write_text(CFG.format(sel="cover", part=0, nparts=1, maxops=maxops, dump="FALSE"))
+        f.write_text(CFG.format(sel="cover", part=0, nparts=1, sub=0, nsub=1, maxops=maxops,
+                                dump="FALSE"))
         jobs.append(dict(spec="MC_RenderArgs", cfg=str(f), workers=1, jvm=jvm, timeout=timeout,
                          coverage=True, deadlock=False))
     try:
@@ -130,9 +133,10 @@ def run_mc(rep: Report, sel: str, maxops: int, nparts: int, dump: bool, coverage
             )
         for a, (_d, g) in res.coverage.items():
             cov[a] += g
-    parts = results[:nparts]
+    parts = results[: nparts * nsub]
     rep.extra.setdefault("mc", []).append(
         {"label": label, "trees": sel, "max_ops": maxops, "parts": nparts,
+         "first_op_subparts": nsub,
          "states": sum(r.distinct for r in parts), "generated": sum(r.generated for r in parts),
          "wall_s": round(max(r.wall_s for r in results), 1)}
     )
@@ -388,19 +392,6 @@ class Replayer:
         self.rep.violation(sig, detail, scenario)
         if len(self.rep.violations) >= MAX_VIOLATIONS:
             self.stop = True
-
-
-def isolated_failure(par, has, ops) -> str | None:
-    """Run the history alone on fresh classes and let TLC judge it; returns the verdict if it
-    is not ok."""
-    try:
-        tr = record_ops(par, has, ops)
-        verdicts, _s, _t = tlc.validate_traces("Trace_RenderArgs", "Trace_RenderArgs.cfg", [tr],
-                                               parallel=1, workers=1, timeout=120, name="c16iso")
-    except tlc.MachineryError:
-        return None
-    v = verdicts[0]["verdict"]
-    return None if v == "ok" else f"{v} at event {verdicts[0]['at']}"
 
 
 # ---------------------------------------------------------------------------------------
@@ -794,8 +785,10 @@ def main(rep: Report, replay: dict | None) -> None:
             tr = record_ops(sc["tree"]["par"], sc["tree"]["has"], sc["ops"])
             judge_traces(rep, [tr], validate(rep, [tr], "c16replay"))
         elif sc["kind"] == "dfs":
-            sel, maxops = ("quick", 3) if "quick" in sc["label"] else ("thorough", 3)
-            res = run_mc(rep, sel, maxops, 24 if sel == "thorough" else NQUICK, True, False, 900, sc["label"])
+            sel, _, ops = sc["label"].partition("/")
+            maxops = int(ops[:1] or 3)
+            res = run_mc(rep, sel, maxops, 24 if sel == "thorough" else NQUICK, True, False, 900,
+                         sc["label"], nsub=4 if maxops > 3 else 1)
             replay_edges(rep, res, sc["label"], only_tree=sc["tree"], only_first=sc["first"])
         elif sc["kind"] in ("classrule", "instrule"):
             res = run_mc(rep, "quick", 1, 1, False, False, 300, "rules")
@@ -823,7 +816,7 @@ def main(rep: Report, replay: dict | None) -> None:
         t0 = _lap(rep, "replay thorough/3ops", t0)
         del res
         if len(rep.violations) < MAX_VIOLATIONS:
-            res4 = run_mc(rep, "quick", 4, NQUICK, True, False, 840, "quick/4ops")
+            res4 = run_mc(rep, "quick", 4, NQUICK, True, False, 840, "quick/4ops", nsub=4)
             t0 = _lap(rep, "tlc quick/4ops", t0)
             replay_edges(rep, res4, "quick/4ops")
             t0 = _lap(rep, "replay quick/4ops", t0)
